@@ -21,6 +21,7 @@ fn main() {
         let v: serde_json::Value = serde_json::from_str(&body).expect("replay file is JSON");
         let property = v["property"].as_str().unwrap_or_default().to_string();
         let part = v["part"].as_str().unwrap_or_default().to_string();
+        vh::core::crash::install(&property);
         match vh::props::replay(&property, &part, &v["case"]) {
             None => {
                 eprintln!("unknown property/part {property}/{part}");
